@@ -609,6 +609,13 @@ impl<'a, 'ast> Visit<'ast> for Ctx<'a> {
                 }
                 if let syn::Expr::Path(p) = &*u.expr {
                     if let Some(id) = p.path.get_ident() {
+                        // `*P` with P a base pointer binding (`let P = X.as_ptr()`) is element 0
+                        if let Some(base) = self.ptr_base.get(&id.to_string()).cloned() {
+                            let (a, b) = self.src.range(u.span());
+                            self.add(a, b, format!("{base}[0]"), "E5 deref of base pointer -> index 0");
+                            self.site("e5_access");
+                            return;
+                        }
                         if let Some((base, idx)) = self.ptr_elem.get(&id.to_string()).cloned() {
                             let (a, b) = self.src.range(u.span());
                             self.add(a, b, format!("{base}[{idx}]"), "E5 deref -> index");
